@@ -60,7 +60,7 @@ def Doc.setBox (d : Doc) (b : Box6) (v : Box) : Doc :=
 def stylesContexts (family : String) : List Box6 :=
   match Odf.Gen.contextMapping.lookup family with
   | some l => l
-  | none => [.sStyles, .sAuto]
+  | none => Odf.Gen.contextFallback
 
 /-- `Content._get_style_contexts(family)` -/
 def contentContexts (family : String) : List Box6 :=
